@@ -2,6 +2,7 @@ import RaftVerif.Spec.ConfigSpec
 import RaftVerif.Model.Overlap
 import RaftVerif.Proofs.Candidate
 import RaftVerif.Proofs.Leader
+import RaftVerif.Proofs.LeaderConfig
 /-! # C07 — membership changes: one voter at a time, well-formed, stale prevIndex refused;
 adjacent configurations have intersecting majorities.  (Pure half: `configuration.go`.) -/
 namespace C07
